@@ -2,14 +2,20 @@
    models really compute on such inputs, and a function with the defining property of erf
    exists (so the calculus theorems about Normal / LogNormal are not about an empty class of functions). *)
 From Coq Require Import Reals Lra Lia List ZArith Bool.
+From Flocq Require Import Core.Raux.
 From Coquelicot Require Import Coquelicot.
-From Inferno Require Import Base.Num Base.NumR Gen.Interpolation Gen.Extrapolation
+From Inferno Require Import Base.Num Base.NumR Gen.Interpolation Gen.Extrapolation Gen.Distributions
   C20.Model C20.Spec C20.VPProofs.
 Import ListNotations.
 Open Scope R_scope.
 
 Definition gauss (t : R) : R := 2 / R_sqrt.sqrt PI * Rtrigo_def.exp (- t ^ 2).
 Definition erf0 (z : R) : R := RInt gauss 0 z.
+
+(* functions with the integer-argument facts assumed of lgamma and gammaincc *)
+Definition lgamma0 (x : R) : R := Rpower.ln (INR (fact (Z.to_nat (Zfloor x - 1)))).
+Definition gammaincc0 (a x : R) : R :=
+  Rtrigo_def.exp (- x) * sum_n (fun j => x ^ j / INR (fact j)) (Z.to_nat (Zfloor a - 1)).
 
 Lemma gauss_continuous : forall t, continuous gauss t.
 Proof.
@@ -29,7 +35,7 @@ Theorem nonvacuous :
   (* Victor-Purpura: a valid finite cost, distance 1/2 between two one-spike trains *)
   nonneg_cost (Some 1) /\ vp_tensor RN (Some 1) [0] [/ 2] = / 2 /\
   (* distributions: valid parameters, and a function with erf's defining derivative exists *)
-  0 < 2 * PI /\ erf_derivative erf0 /\ erf0 0 = 0.
+  0 < 2 * PI /\ erf_derivative erf0 /\ erf0 0 = 0 /\ lgamma_spec lgamma0 /\ gammaincc_spec gammaincc0.
 Proof.
   assert (H1 : interp_linear RN (fst (extrap_linear_forward RN 3 (/ 4) 1 7 1 None))
                  (snd (extrap_linear_forward RN 3 (/ 4) 1 7 1 None)) (/ 4) 1 = 3).
@@ -50,6 +56,12 @@ Proof.
   split; [repeat split; vm_compute; reflexivity|].
   split; [reflexivity|].
   split; [exact H2|]. split; [exact H3|].
-  split; [exact H6|]. split; [exact H4 | exact H5].
+  assert (H7 : lgamma_spec lgamma0).
+  { intros k. unfold lgamma0. replace (INR k + 1) with (IZR (Z.of_nat k + 1)) by (rewrite plus_IZR, <- INR_IZR_INZ; reflexivity).
+    rewrite Zfloor_IZR. replace (Z.of_nat k + 1 - 1)%Z with (Z.of_nat k) by lia. rewrite Nat2Z.id. reflexivity. }
+  assert (H8 : gammaincc_spec gammaincc0).
+  { intros n x. unfold gammaincc0. rewrite INR_IZR_INZ, Zfloor_IZR.
+    replace (Z.of_nat (S n) - 1)%Z with (Z.of_nat n) by lia. rewrite Nat2Z.id. reflexivity. }
+  split; [exact H6|]. split; [exact H4|]. split; [exact H5|]. split; [exact H7 | exact H8].
 Qed.
 Print Assumptions nonvacuous.
